@@ -36,7 +36,7 @@ def gen_cfg(rng, kind):
     mh, mw = rng.choice(MAXS)
     sn, sd = rng.choice(SCALES)
     c = dict(H=H, W=W, maxH=mh, maxW=mw, sn=sn, sd=sd, ms=rng.choice([8, 16]), s=rng.choice([1, 2, 4]),
-             refine=rng.choice([None, "integral"]), batch=rng.choice([1, 3]))
+             refine=rng.choice([None, "integral"]), batch=rng.choice([1, 2, 3]))      # 2: the last batch of a 3-frame run is partial
     # frames of two different sizes (two videos) in one run: every frame has its own eff_scale; needs both maxima
     # (otherwise frames of different sizes cannot share a batch) and only the labels provider can serve it
     c["H2"], c["W2"] = rng.choice([s_ for s_ in SIZES if s_ != (H, W)]) if (mh and mw and rng.random() < 0.4) else (0, 0)
